@@ -1,5 +1,7 @@
 From Coq Require Extraction.
 From Coq Require Import ExtrOcamlBasic.
 From AIT Require Import Base.Vio C15.Model C15.Spec.
-Extraction "model.ml" vio_kit flp_system flp_rows flp_order nweights flat_err flat_maxerr first_violated feasibleb wl
-  all_assign psize pidx entry mlp_system mlp_system_orig mlp_order.
+From AIT Require C14.Model2D C14.ModelDDN.
+Extraction "model.ml" vio_kit flp_system flp_rows flp_order flp_system_r flp_order_r nweights flat_err flat_maxerr first_violated feasibleb wl
+  all_assign psize pidx entry mlp_system mlp_system_orig mlp_order
+  C14.Model2D.plusEqualFM C14.Model2D.scaleW2D C14.Model2D.getValue2D.
